@@ -589,6 +589,8 @@ func verif_modifies_elems[T any](s []T)       {}
 func verif_modifies_map[K comparable, V any](m map[K]V) {}
 func verif_modifies_obj[T any](p *T)          {}
 func verif_modifies_all()                     {}
+func verif_modifies_ghost(name string)        {}
+func verif_ghost_int(name string) int         { return 0 }
 func verif_preserves[T any](p *T)             {}
 func verif_preserves_obj[T any](p *T)         {}
 func verif_old[T any](f func() T) T           { return f() }
@@ -640,6 +642,8 @@ func (c *Contract) Generate() (string, error) {
 			switch {
 			case m == "all":
 				fmt.Fprintf(&b, "\tverif_modifies_all()\n")
+			case strings.HasPrefix(m, "ghost(") && strings.HasSuffix(m, ")"):
+				fmt.Fprintf(&b, "\tverif_modifies_ghost(%s)\n", m[6:len(m)-1])
 			case strings.HasPrefix(m, "elems(") && strings.HasSuffix(m, ")"):
 				fmt.Fprintf(&b, "\tverif_modifies_elems(%s)\n", m[6:len(m)-1])
 			case strings.HasPrefix(m, "map(") && strings.HasSuffix(m, ")"):
